@@ -21,7 +21,7 @@ RULE = (
     "arbitrary (non-contiguous) label values; every non-empty subset of updatable parameters of Clip / Scaling / Linear "
     "models and of a CombinedModel of 2..3 parts (dofs given as (position, name) pairs); Gaussian and linear (shifted and "
     "unshifted) kernels with 1..4 distinct supports whose kernel matrix has condition <= 1e3, signals of 1, 2 and 3 array "
-    "dimensions, also after a kernel update on the same interpolation object; polynomial degrees 0..4. The kernel cases "
+    "dimensions, also after a kernel update on the same interpolation object; polynomial degrees 0..4 visited in ascending, descending and random order on fresh and on kept spaces. The kernel cases "
     "are budgeted by count (numba re-compiles per call): quick 64, thorough 640. distinct = (model family, configuration); "
     "non-trivial = parameters differ from the defaults / more than one label or support"
 )
@@ -37,9 +37,9 @@ ASSUMPTIONS = [
 ]
 FLOORS = {
     "quick": {"two_live_objects": 400, "heterogeneous_update_history": 300, "labelwise_wrapper": 200, "clip": 300, "linear": 300, "combined_composition": 100, "combined_routing": 300, "heterogeneous_linear": 80, "heterogeneous_resolution_history": 100, "combined_routing_grouped": 100, "threshold": 150, "threshold_integer_signals": 500, "kernel_reproduces_values": 60, "kernel_values_updated": 100, "kernel_supports_replaced": 25, "heterogeneous_integer_signals": 150, "combined_with_labelwise_part": 150, "linear_models_on_images": 150, "threshold_3d_label_maps": 100, "combined_vector_valued_dof": 80, "kernel_advanced_updated": 15,
-              "kernel_numba_equals_plain_sum": 150, "polynomial_span": 5},
+              "kernel_numba_equals_plain_sum": 150, "kernel_signals_on_8bit_scale": 8, "polynomial_span": 100},
     "thorough": {"two_live_objects": 4000, "heterogeneous_update_history": 3000, "labelwise_wrapper": 2000, "clip": 3000, "linear": 3000, "combined_composition": 1000, "combined_routing": 3000, "heterogeneous_linear": 800, "heterogeneous_resolution_history": 1000, "combined_routing_grouped": 1000, "threshold": 1500, "threshold_integer_signals": 5000, "kernel_reproduces_values": 600, "kernel_values_updated": 1000, "kernel_supports_replaced": 250, "heterogeneous_integer_signals": 1500, "combined_with_labelwise_part": 1500, "linear_models_on_images": 1500, "threshold_3d_label_maps": 1000, "combined_vector_valued_dof": 800, "kernel_advanced_updated": 150,
-                 "kernel_numba_equals_plain_sum": 1500, "polynomial_span": 5},
+                 "kernel_numba_equals_plain_sum": 1500, "kernel_signals_on_8bit_scale": 80, "polynomial_span": 100},
 }
 SHARD_TIMEOUT = {"quick": 1500, "thorough": 7200}
 
@@ -490,6 +490,10 @@ def run_shard(spec, R):
         for _ in range(100):
             ns = int(rng.integers(1, 5)) if kind != "linear" else int(rng.integers(1, 4))
             sup = rng.uniform(0.05, 0.95, size=(ns, 3)).astype(np.float32)
+            if kind == "gaussian" and kc % 6 == 3:
+                # colour signals that were not normalised to [0, 1] (8-bit scale)
+                sup = rng.uniform(5.0, 250.0, size=(ns, 3)).astype(np.float32)
+                R.count("kernel_signals_on_8bit_scale") if _ == 0 else None
             kern = darsia.GaussianKernel(gamma=float(rng.uniform(1, 10))) if kind == "gaussian" else darsia.LinearKernel(a=0.0 if kind == "linear" else float(rng.uniform(0.3, 1.5)))
             X = np.array([[kern(sup[i], sup[j]) for j in range(ns)] for i in range(ns)], dtype=float)
             if np.linalg.cond(X) <= 1e3:
@@ -582,8 +586,17 @@ def run_shard(spec, R):
         # numba path == plain kernel sum for 1-, 2- and 3-dimensional signal arrays
         w = np.asarray(ki.interpolation_weights, np.float32)
         S = np.asarray(ki.supports, np.float32)
-        for sname, sigarr in (("pixel", rng.uniform(0, 1, size=3)), ("pixel_list", rng.uniform(0, 1, size=(int(rng.integers(1, 20)), 3))),
-                              ("image", rng.uniform(0, 1, size=(int(rng.integers(1, 7)), int(rng.integers(1, 7)), 3)))):
+        on_8bit = kind == "gaussian" and kc % 6 == 3
+
+        def draw_signal(shape_):
+            if not on_8bit:
+                return rng.uniform(0, 1, size=shape_ + (3,))
+            # colours in the neighbourhood of the supports (elsewhere a Gaussian of this width vanishes)
+            pick_ = rng.integers(0, len(S), size=shape_)
+            return np.asarray(S, float)[pick_] + rng.uniform(-0.6, 0.6, size=shape_ + (3,))
+
+        for sname, sigarr in (("pixel", draw_signal(())), ("pixel_list", draw_signal((int(rng.integers(1, 20)),))),
+                              ("image", draw_signal((int(rng.integers(1, 7)), int(rng.integers(1, 7)))))):
             sig32 = sigarr.astype(np.float32)
             ok, fast = R.guarded("kernel_numba_equals_plain_sum", lambda: kern.linear_combination(sig32, S, w))
             if ok:
@@ -608,11 +621,17 @@ def run_shard(spec, R):
             R.sample(case)
 
     # ============================================================ polynomials
-    if spec["poly"] and R.want(["poly"]):
-        rng = rng_for(spec["seed"], "C14", 999, 0)
+    # every shard walks through the degrees in its own order (shard 0: ascending, then descending), visiting spaces
+    # that stay alive (re-evaluated later) as well as fresh ones; each evaluation is judged on its own
+    if R.want(["poly"]):
+        rng = rng_for(spec["seed"], "C14", 999, spec["shard"])
         pts = rng.uniform(-1, 1, size=(200, 2))
-        for d in range(0, 5):
-            sp = darsia.PolynomialApproximationSpace(d)
+        live = {}
+        visits = [0, 1, 2, 3, 4, 3, 2, 1, 0] if spec["shard"] == 0 else [int(v) for v in rng.integers(0, 5, size=9)]
+        for vi, d in enumerate(visits):
+            fresh = d not in live or rng.random() < 0.5
+            sp = darsia.PolynomialApproximationSpace(d) if fresh else live[d]
+            live.setdefault(d, sp)
             mon = np.stack([pts[:, 0] ** i * pts[:, 1] ** j for i in range(d + 1) for j in range(d + 1 - i)], axis=1)
             ok, B = R.guarded("polynomial_span", lambda: np.stack([np.asarray(sp.basis(pts, k), float) for k in range(sp.size)], axis=1))
             if not ok:
@@ -624,7 +643,7 @@ def run_shard(spec, R):
                 r2 = B - mon @ np.linalg.lstsq(mon, B, rcond=None)[0]
                 res = max(float(np.max(np.abs(r1))), float(np.max(np.abs(r2))))
                 good = res <= 1e-9
-            R.check(good, "polynomial_span", {"degree": d, "size": sp.size, "expected_size": mon.shape[1], "mutual_residual": res},
+            R.check(good, "polynomial_span", {"degree": d, "size": sp.size, "expected_size": mon.shape[1], "mutual_residual": res, "degrees_visited_before": visits[:vi], "fresh_space": bool(fresh)},
                     key="C14:polynomial_basis_enumerates_tensor_grid" if d >= 2 else None)
             R.sig(["poly", d], d > 0, cls="poly")
             # via __call__ as well
